@@ -654,7 +654,7 @@ def cases(tier, seed):
         out.append({"stream": "dt-ctor", "fn": "dt_ctor", "args": ["fromtimestamp", spec, t_us]})
         out.append({"stream": "dt-ctor", "fn": "dt_ctor", "args": ["fromordinal", None, rnd.randrange(1, 3652060)]})
         W = rnd.randrange(T.US_DAY * 3, T.MAX_WALL - T.US_DAY * 3)
-        out.append({"stream": "dt-ctor", "fn": "dt_ctor", "args": ["combine", spec if i % 4 else None, W, i % 2]})
+        out.append({"stream": "dt-ctor", "fn": "dt_ctor", "args": ["combine", spec if i % 4 else None, W, (i // 4 + i) % 2]})   # naive combine with both folds
         out.append({"stream": "dt-ctor", "fn": "dt_ctor", "args": ["strptime", FIXED[i % len(FIXED)] // 60 * 60 if i % 3 else None, W - W % T.MEG]})
     # dates over all month shapes
     for (y, m) in MONTH_SHAPES:
@@ -1539,12 +1539,12 @@ TRUSTED = list(TRUSTED) + [
     "DateTime.create / replace / instance / astimezone and FixedTimezone.utcoffset / fromutc / dst translated from /repo on every run answer (coq/Gen/TzGlue.v by g15_tz_glue.py — its reading rules and its "
     "hand-modelled native calls nat_new / nat_astimezone / nat_add are trusted as listed for C01-C03 — and coq/Gen/DropInMethods.v), through the value bridge tzi_of / dtv_of: model_is_code_dropin_create / "
     "_replace / _instance / _astimezone / _fixed_timezone. Side conditions: fields and wall value of a real datetime, fold 0 or 1, coherent timezone objects (gtz_ok, same_obj, tz_ok); instance: tz=None and "
-    "the value carries a pendulum timezone object or is naive with fold 0. dropin_instance_naive_fold1_model_differs states where the hand model pd_instance is WRONG (naive value with fold 1: the code keeps "
-    "the fold, the model answers 0; reached by DateTime.combine(date, time(fold=1)); no generated case has that shape). The remaining overrides stay hand-written + pinned (pinned_sources): __sub__ / __rsub__ / "
+    "the value carries a pendulum timezone object or is naive (either fold: the fold is kept). This tie found that pd_instance answered fold 0 for a naive value with fold 1 "
+    "(DateTime.combine(date, time(fold=1))): the model was corrected and the naive combine cases now carry both folds. The remaining overrides stay hand-written + pinned (pinned_sources): __sub__ / __rsub__ / "
     "Interval.__new__, fromtimestamp / utcfromtimestamp, combine / strptime (one-line wrappers of instance), Date.__sub__, _cmp",
 ]
 LEVEL_NOTE = LEVEL_NOTE + (" Model = code for the overrides date(), time(), timetz(), __str__, for_json, __format__(''), fromordinal and Time.__sub__: coq/Gen/DropInMethods.v is translated on every run and "
                            "Proofs/DropInMethodsFacts.v proves it equal to Model/DropIn.v (self-tested by mutation: time() dropping fold again, timetz() without tzinfo, date() with month / day swapped, "
                            "for_json via str(self)); create, replace, instance, astimezone and FixedTimezone.utcoffset / dst / fromutc are tied to the bodies translated in Gen/TzGlue.v (Proofs/DropInGlueFacts.v), "
-                           "which exposed one wrong answer of the hand model (pd_instance on a naive value with fold 1: dropin_instance_naive_fold1_model_differs). Still hand + pinned: __sub__ / __rsub__ / "
+                           "which exposed one wrong answer of the hand model (pd_instance on a naive value with fold 1), since corrected. Still hand + pinned: __sub__ / __rsub__ / "
                            "Interval.__new__, fromtimestamp, utcfromtimestamp, combine, strptime, Date.__sub__, _cmp.")
